@@ -39,11 +39,14 @@ def main():
             "note": det[pid]["note"],
         }
         json.dump(meta, open(old, "w"), indent=1)
-        ok = confirm and confirm.get("demo_clean_exit") == 0 and confirm.get("demo_mutated_exit") not in (0, None) and "323 passed" in confirm.get("tests", "")
+        demo_ok = confirm and confirm.get("demo_clean_exit") == 0 and confirm.get("demo_mutated_exit") not in (0, None)
+        ok = demo_ok and "323 passed" in confirm.get("tests", "")
+        if demo_ok and not ok and "tests" not in confirm and "323 passed" in str(notes.get("tests", "")):
+            ok = "demo"      # demo confirmed here; the full test-suite run on the changed tree is the sub-agent's (notes.json)
         summ = (notes.get("summary") or "").replace("|", "/").replace("\n", " ")
         if len(summ) > 230:
             summ = summ[:227] + "..."
-        rows.append(f"| {pid} | {summ} | {'yes' if ok else 'pending' if not confirm else 'NO'} | {', '.join(det[pid]['caught_by'])} | {det[pid]['first_round']} | {det[pid]['note'].replace('|', '/')} |")
+        rows.append(f"| {pid} | {summ} | {'yes (demo here, suite by the sub-agent)' if ok == 'demo' else 'yes' if ok else 'pending' if not confirm else 'NO'} | {', '.join(det[pid]['caught_by'])} | {det[pid]['first_round']} | {det[pid]['note'].replace('|', '/')} |")
     print("| property | seeded change (one-line) | confirmed (tests pass, demo fails only with the change) | caught by | first round | how / what was strengthened |")
     print("|---|---|---|---|---|---|")
     print("\n".join(rows))
